@@ -93,6 +93,16 @@ def superfluous (s : Str) : Bool :=
 def textSpecs : List (String × SpecFn) := [
   ("api.Parse", checkParse 6 true),
   ("api.UnmarshalText", checkParse 8 false),
+  -- a value made by the library itself (Parse) and then marshalled: the independent BID reader must see that value
+  ("api.ParseBinary", fun g a r => do
+      let b ← Codec.decBytes (a.getD 0 "")
+      let out ← Codec.decBytes (r.getD 0 "")
+      match parseExpect g 6 (bytesToStr b) with
+      | some (some v, "nil") =>
+        (match bidDecode out with
+         | none => some (some s!"not 16 bytes: {out.size}")
+         | some w => some (if w.same v then none else some s!"BID decoder reads {showVal w}, the literal denotes {showVal v}"))
+      | _ => none),
   ("api.MustParse", fun g a r => do
       let b ← Codec.decBytes (a.getD 0 "")
       match parseExpect g 4 (bytesToStr b) with
